@@ -212,30 +212,35 @@ fn gen_period(run_seed: u64, target: &str, c: &mut Rng, o: &mut Rng) -> Plan {
     };
     block(o, 0, na, &mut ops);
     block(o, na, nb, &mut ops);
+    // a touch of block B: two or three nested decisions on its variables, then the matching pops (clauses are
+    // visited while satisfied by an earlier decision of the touch, while unit, while falsified)
     let touch_b = |o: &mut Rng, ops: &mut Vec<Op>, k: u64| {
         for _ in 0..k {
-            ops.push(Op { c: 0, k: K_DECIDE, a: [(na + o.below(nb)) as i64, o.below(2) as i64, 0, 0] });
-            if o.below(3) == 0 {
+            let depth = 1 + o.below(3);
+            for _ in 0..depth {
                 ops.push(Op { c: 0, k: K_DECIDE, a: [(na + o.below(nb)) as i64, o.below(2) as i64, 0, 0] });
+            }
+            for _ in 0..depth {
                 ops.push(Op { c: 0, k: K_POP, a: [0; 4] });
             }
-            ops.push(Op { c: 0, k: K_POP, a: [0; 4] });
         }
     };
-    let (k1, k2) = (1 + o.below(4), 2 + o.below(5));
+    let (k1, k2) = (2 + o.below(5), 3 + o.below(6));
     touch_b(o, &mut ops, k1);
-    let period: u64 = if c.below(2) == 0 { 256 } else { 65_536 };
-    let m = match c.below(8) {
-        0 => period + 1,
-        1 => period,
-        _ => period - 1 - c.below(2 * (k1 + k2) + 2),
-    };
+    let d1 = ops.iter().filter(|x| x.k == K_DECIDE).count() as u64;
+    let mut tail = Vec::new();
+    touch_b(o, &mut tail, k2);
+    let d2 = tail.iter().filter(|x| x.k == K_DECIDE).count() as u64;
+    // the quiet phase: M decide calls on block A, such that some decide of the first phase and some decide of the
+    // second are exactly one period (2^8 - 1, 2^8, 2^16 - 1 or 2^16 calls) apart
+    let period: u64 = *c.pick(&[255u64, 256, 65_535, 65_535, 65_536, 65_536]);
+    let m = period - 1 - c.below(d1 + d2 - 1);
     cfg.insert("quiet_phase".into(), m as i64);
     for _ in 0..m {
         ops.push(Op { c: 0, k: K_DECIDE, a: [o.below(na) as i64, o.below(2) as i64, 0, 0] });
         ops.push(Op { c: 0, k: K_POP, a: [0; 4] });
     }
-    touch_b(o, &mut ops, k2);
+    ops.extend(tail);
     Plan { world: "sat".into(), target: target.into(), seed: run_seed, cfg, ops, faults: Faults::Random { seed: mix(run_seed, 80), rates: [0; NUM_SITES] } }
 }
 
